@@ -21,8 +21,6 @@ def first_word(s):
 
 KNOWN_CLASSES = [
     "nested-variable-checked-by-named-type-only",
-    "undefined-variable-inside-custom-scalar-object",
-    "null-item-in-list-for-non-null-custom-scalar",
     "subscription-root-fields-counted-ignoring-type-conditions",
 ]
 
